@@ -278,7 +278,7 @@ Proof.
     rewrite E. unfold contains, ex_whole, part_contains. cbn [forallb existsb ps pe]. lia. }
   assert (Hd : forall f a b, floc f = [mkPart a 1000 1; mkPart 0 b 1] -> 0 < a -> a < 1000 -> 0 < b -> b < a ->
                feat_ok 1000 true ex_whole f).
-  { intros f a b E H0 H1 H2 H3. split; [right; exists (mkPart a 1000 1), (mkPart 0 b 1); cbn; repeat split; auto|].
+  { intros f a b E H0 H1 H2 H3. split; [right; exists (mkPart a 1000 1), (mkPart 0 b 1); cbn; repeat split; auto; lia|].
     split; [|auto]. rewrite E. unfold contains, ex_whole, part_contains. cbn [forallb existsb ps pe]. lia. }
   split; [left; exists (mkPart 0 1000 1); cbn; repeat split; lia|].
   split.
@@ -314,47 +314,72 @@ Proof.
 Qed.
 
 (* "every gene lies within the coordinate range announced for the region": for every region and every list of
-   genes (any number of exons, either strand, origin-crossing or not) that are well-formed and inside the
-   region, the coordinates emitted by convert_cds_features pass the in-range test against the start/end that
-   convert_regions announces (start <= gene start, gene start <= gene end + 1, gene end <= end; both halves of a
-   split gene included).  Guard gene_guard: no gene straddles the gap an origin-crossing region leaves on the
-   ring (finding gene_across_region_gap, F45, witness below). *)
+   genes (any number of exons IN ANY ORDER, either strand, origin-crossing or not, also with an intron over the
+   gap that an origin-crossing region leaves on the ring, also running the long way round the ring) that are
+   well-formed and inside the region, the coordinates emitted by convert_cds_features pass the in-range test
+   against the start/end that convert_regions announces (start <= gene start, gene start <= gene end + 1,
+   gene end <= end; both halves of a split gene included).  No guard: the finding classes
+   gene_across_region_gap (F45) and gene_long_way_round (C19-K3) were repaired in the code, and wf_gene no longer
+   asks an origin-crossing gene to touch the origin. *)
 Theorem C19_genes_in_range : forall N rloc genes se,
-  wf_region N rloc -> Forall (wf_gene N rloc) genes -> Forall (fun g => gene_guard rloc g = true) genes ->
+  wf_region N rloc -> Forall (wf_gene N rloc) genes ->
   region_range rloc N = Ok se ->
   forall grp, spec_orfs se (bridges rloc) (convert_cds_features rloc N grp genes) = true.
 Proof. exact genes_in_range. Qed.
 Print Assumptions C19_genes_in_range.
 
 (* "positions after the origin being shifted by the record length so that order along the drawing equals order
-   along the genome": in an origin-crossing region [s, N) + [0, e) every gene is emitted once, its 1-based start
-   and inclusive end being the unrolled positions of its first and last base, where unroll shifts a position x
-   by N exactly when x < s, i.e. exactly when it lies after the origin *)
-Theorem C19_genes_shifted : forall N rloc genes grp,
-  wf_region N rloc -> Forall (wf_gene N rloc) genes -> Forall (fun g => gene_guard rloc g = true) genes ->
+   along the genome": in an origin-crossing region [s, N) + [0, e) the 1-based start and the inclusive end of
+   every gene are the unrolled positions a, b of its first and last base, where unroll shifts a position x by N
+   exactly when x < s, i.e. exactly when it lies after the origin.  If a <= b the gene is emitted once, from a
+   to b; otherwise (the gene leaves the region at one end and returns at the other: an intron covers the gap of
+   the region) as two consecutive halves with one fresh non-zero group id, from a to the end of the region and
+   from the start of the region to b.  No guard. *)
+Theorem C19_genes_shifted : forall N rloc g grp more,
+  wf_region N rloc -> bridges rloc = true -> wf_gene N rloc g ->
+  let a := unroll (loc_fstart rloc) N (loc_fstart g) + 1 in
+  let b := unroll (loc_fstart rloc) N (loc_fend g - 1) + 1 in
+  convert_cds_features rloc N grp (g :: more) =
+    (if b <? a then
+       mkOrf a (loc_fend rloc + N) (if lstrand g =? -1 then strand_or_1 (lstrand g) else 0) (grp + 1)
+       :: mkOrf (loc_fstart rloc + 1) b (if lstrand g =? -1 then 0 else strand_or_1 (lstrand g)) (grp + 1)
+       :: convert_cds_features rloc N (grp + 1) more
+     else mkOrf a b (strand_or_1 (lstrand g)) 0 :: convert_cds_features rloc N grp more) /\
+  (0 <= grp -> grp + 1 <> 0).
+Proof. exact genes_shifted. Qed.
+Print Assumptions C19_genes_shifted.
+
+(* the genes of the ordinary kind (gene_ordinary: inside one part of the region, or crossing the origin with the
+   first exon before and the last exon after it, an origin-crossing gene touching the origin) are emitted exactly
+   as before the repairs: every gene once, between the unrolled positions of its first and last base *)
+Theorem C19_genes_ordinary_once : forall N rloc genes grp,
+  wf_region N rloc -> Forall (wf_gene N rloc) genes ->
+  Forall (fun g => bridges g = true -> touches_origin N g) genes ->
+  Forall (fun g => gene_ordinary rloc g = true) genes ->
   bridges rloc = true ->
   convert_cds_features rloc N grp genes =
     map (fun g => mkOrf (unroll (loc_fstart rloc) N (loc_fstart g) + 1)
                         (unroll (loc_fstart rloc) N (loc_fend g - 1) + 1)
                         (strand_or_1 (lstrand g)) 0) genes.
 Proof. exact genes_unrolled. Qed.
-Print Assumptions C19_genes_shifted.
+Print Assumptions C19_genes_ordinary_once.
 
-(* in a region that does not cross the origin nothing is shifted; a gene that crosses the origin can only occur
-   when the region is the whole record and is emitted as two consecutive halves with the same non-zero group id,
-   (start, N) and (1, end) *)
+(* in a region [ps r, pe r) that does not cross the origin nothing is shifted; a gene that crosses the origin
+   (by the order of its exons) is emitted as two consecutive halves with the same non-zero group id, each
+   reaching an end of the region: (start, pe r) and (ps r + 1, end).  If such a gene touches the origin, the
+   region is the whole record and the halves are (start, N) and (1, end) *)
 Theorem C19_genes_unwrapped_region : forall N r g grp more,
   0 <= ps r -> ps r < pe r -> pe r <= N -> wf_gene N [r] g ->
   (bridges g = false ->
      convert_cds_features [r] N grp (g :: more) =
        mkOrf (loc_fstart g + 1) (loc_fend g) (strand_or_1 (lstrand g)) 0 :: convert_cds_features [r] N grp more) /\
   (bridges g = true ->
-     ps r = 0 /\ pe r = N /\
      convert_cds_features [r] N grp (g :: more) =
-       mkOrf (loc_fstart g + 1) N (if lstrand g =? -1 then strand_or_1 (lstrand g) else 0) (grp + 1)
-       :: mkOrf 1 (loc_fend g) (if lstrand g =? -1 then 0 else strand_or_1 (lstrand g)) (grp + 1)
+       mkOrf (loc_fstart g + 1) (pe r) (if lstrand g =? -1 then strand_or_1 (lstrand g) else 0) (grp + 1)
+       :: mkOrf (ps r + 1) (loc_fend g) (if lstrand g =? -1 then 0 else strand_or_1 (lstrand g)) (grp + 1)
        :: convert_cds_features [r] N (grp + 1) more /\
-     (0 <= grp -> grp + 1 <> 0)).
+     (0 <= grp -> grp + 1 <> 0) /\
+     (touches_origin N g -> ps r = 0 /\ pe r = N)).
 Proof. exact genes_unwrapped_region. Qed.
 Print Assumptions C19_genes_unwrapped_region.
 
@@ -370,7 +395,15 @@ Proof.
   apply Forall_cons; [wf_gene_tac|]. apply Forall_cons; [wf_gene_tac|]. apply Forall_nil.
 Qed.
 
-Example C19_genes_ex_guard : Forall (fun g => gene_guard ex_rloc g = true) ex_genes.
+Example C19_genes_ex_touch : Forall (fun g => bridges g = true -> touches_origin ex_N g) ex_genes.
+Proof.
+  unfold ex_genes, ex_N.
+  repeat (apply Forall_cons; [intros Hb; first [ vm_compute in Hb; discriminate Hb
+                                              | split; eauto 8 using in_eq, in_cons ]|]).
+  apply Forall_nil.
+Qed.
+
+Example C19_genes_ex_ordinary : Forall (fun g => gene_ordinary ex_rloc g = true) ex_genes.
 Proof. repeat constructor. Qed.
 
 Example C19_genes_ex_range : region_range ex_rloc ex_N = Ok (800, 1300).
@@ -384,9 +417,9 @@ Example C19_genes_ex_output :
     [mkOrf 851 900 1 0; mkOrf 1011 1040 (-1) 0; mkOrf 991 1020 1 0; mkOrf 981 1015 (-1) 0].
 Proof. vm_compute. reflexivity. Qed.
 
-(* the two theorems instantiated on the example: hypotheses hold, conclusions are the computed values *)
+(* the theorems instantiated on the example: hypotheses hold, conclusions are the computed values *)
 Example C19_genes_ex_in_range : spec_orfs (800, 1300) (bridges ex_rloc) (convert_cds_features ex_rloc ex_N 0 ex_genes) = true.
-Proof. exact (genes_in_range ex_N ex_rloc ex_genes (800, 1300) C19_genes_ex_wf_region C19_genes_ex_wf_genes C19_genes_ex_guard C19_genes_ex_range 0). Qed.
+Proof. exact (genes_in_range ex_N ex_rloc ex_genes (800, 1300) C19_genes_ex_wf_region C19_genes_ex_wf_genes C19_genes_ex_range 0). Qed.
 
 Example C19_genes_ex_unrolled :
   map (fun g => mkOrf (unroll (loc_fstart ex_rloc) ex_N (loc_fstart g) + 1)
@@ -394,7 +427,8 @@ Example C19_genes_ex_unrolled :
                       (strand_or_1 (lstrand g)) 0) ex_genes =
     [mkOrf 851 900 1 0; mkOrf 1011 1040 (-1) 0; mkOrf 991 1020 1 0; mkOrf 981 1015 (-1) 0].
 Proof.
-  rewrite <- (genes_unrolled ex_N ex_rloc ex_genes 0 C19_genes_ex_wf_region C19_genes_ex_wf_genes C19_genes_ex_guard (proj1 C19_genes_ex_bridges)).
+  rewrite <- (genes_unrolled ex_N ex_rloc ex_genes 0 C19_genes_ex_wf_region C19_genes_ex_wf_genes C19_genes_ex_touch
+                             C19_genes_ex_ordinary (proj1 C19_genes_ex_bridges)).
   exact C19_genes_ex_output.
 Qed.
 
@@ -403,33 +437,113 @@ Example C19_genes_ex_unwrapped :
   let r := mkPart 0 1000 1 in
   let g := [mkPart 990 1000 1; mkPart 0 20 1] in
   wf_region 1000 [r] /\ wf_gene 1000 [r] g /\ wf_gene 1000 [r] [mkPart 5 9 1] /\ bridges g = true /\
+  touches_origin 1000 g /\
   convert_cds_features [r] 1000 0 [g; [mkPart 5 9 1]] = [mkOrf 991 1000 0 1; mkOrf 1 20 1 1; mkOrf 6 9 1 0] /\
   spec_orfs (1, 1000) false [mkOrf 991 1000 0 1; mkOrf 1 20 1 1; mkOrf 6 9 1 0] = true.
 Proof.
   cbv zeta. split; [left; eexists; split; [reflexivity|cbn; lia]|].
   split; [|split]; [| |repeat split].
-  - split; [discriminate|]. split; [repeat (apply Forall_cons; [cbn; lia|]); apply Forall_nil|]. split; [reflexivity|].
-    intros _. split; eauto 8 using in_eq, in_cons.
-  - split; [discriminate|]. split; [repeat (apply Forall_cons; [cbn; lia|]); apply Forall_nil|]. split; [reflexivity|].
-    cbn. discriminate.
+  - split; [discriminate|]. split; [repeat (apply Forall_cons; [cbn; lia|]); apply Forall_nil|reflexivity].
+  - split; [discriminate|]. split; [repeat (apply Forall_cons; [cbn; lia|]); apply Forall_nil|reflexivity].
+  - eauto 8 using in_eq, in_cons.
+  - eauto 8 using in_eq, in_cons.
 Qed.
 
-(* the guard is necessary (finding F45 gene_across_region_gap) *)
-Example C19_gene_gap_witness :
+(* regression witness of the repaired finding gene_across_region_gap (F45): ring of 30, region [10,30)+[0,9), gene
+   join{[7:9], [10:11]} - neither crossing the origin nor inside one part of the region, its intron covers the
+   gap of the region.  Emitted before the repair: one orf 8..11 against the announced 10..39; now two linked
+   halves, 38..39 at the end of the region (no strand: drawn as a block) and 11..11 at its start *)
+Example C19_gene_gap_witness_repaired :
   let N := 30 in
   let rloc := [mkPart 10 30 1; mkPart 0 9 1] in
   let g := [mkPart 7 9 1; mkPart 10 11 1] in
-  wf_region N rloc /\ wf_gene N rloc g /\ gene_guard rloc g = false /\ class_gene_gap rloc [g] = true /\
+  wf_region N rloc /\ wf_gene N rloc g /\ gene_ordinary rloc g = false /\ bridges g = false /\
   region_range rloc N = Ok (10, 39) /\
-  convert_cds_features rloc N 0 [g] = [mkOrf 8 11 1 0] /\
+  convert_cds_features rloc N 0 [g] = [mkOrf 38 39 0 1; mkOrf 11 11 1 1] /\
+  spec_orfs (10, 39) (bridges rloc) (convert_cds_features rloc N 0 [g]) = true /\
   spec_orfs (10, 39) (bridges rloc) [mkOrf 8 11 1 0] = false.
 Proof.
   cbv zeta. split.
   { right. exists (mkPart 10 30 1), (mkPart 0 9 1). cbn. repeat split; try reflexivity; lia. }
   split.
-  { split; [discriminate|]. split; [repeat (apply Forall_cons; [cbn; lia|]); apply Forall_nil|]. split; [reflexivity|].
-    cbn. discriminate. }
+  { split; [discriminate|]. split; [repeat (apply Forall_cons; [cbn; lia|]); apply Forall_nil|reflexivity]. }
   repeat split.
+Qed.
+
+(* the second shape of that class: an origin-crossing gene with a further exon on the far side of the gap (ring of
+   1000, region [900,1000)+[0,30), gene join{[10:20], [950:1000], [0:5]}; before the repair 11..1005 against
+   900..1030) *)
+Example C19_gene_gap_witness2_repaired :
+  let N := 1000 in
+  let rloc := [mkPart 900 1000 1; mkPart 0 30 1] in
+  let g := [mkPart 10 20 1; mkPart 950 1000 1; mkPart 0 5 1] in
+  wf_region N rloc /\ wf_gene N rloc g /\ gene_ordinary rloc g = false /\ bridges g = true /\
+  convert_cds_features rloc N 0 [g] = [mkOrf 1011 1030 0 1; mkOrf 901 1005 1 1] /\
+  spec_orfs (900, 1030) (bridges rloc) (convert_cds_features rloc N 0 [g]) = true /\
+  spec_orfs (900, 1030) (bridges rloc) [mkOrf 11 1005 1 0] = false.
+Proof.
+  cbv zeta. split.
+  { right. exists (mkPart 900 1000 1), (mkPart 0 30 1). cbn. repeat split; try reflexivity; lia. }
+  split.
+  { split; [discriminate|]. split; [repeat (apply Forall_cons; [cbn; lia|]); apply Forall_nil|reflexivity]. }
+  repeat split.
+Qed.
+
+(* regression witness of the repaired finding gene_long_way_round (C19-K3): ring of 100, ordinary region [69,75),
+   gene join{[72:73], [69:71]} listed against its strand - it "crosses the origin" by the order of its exons and
+   touches the origin nowhere.  Emitted before the repair: 73..100 and 1..71 against the announced 70..75; now
+   the halves reach the ends of the region, 73..75 and 70..71 *)
+Example C19_gene_long_way_witness_repaired :
+  let N := 100 in
+  let r := mkPart 69 75 1 in
+  let g := [mkPart 72 73 1; mkPart 69 71 1] in
+  wf_region N [r] /\ wf_gene N [r] g /\ bridges g = true /\ ~ touches_origin N g /\
+  region_range [r] N = Ok (70, 75) /\
+  convert_cds_features [r] N 0 [g] = [mkOrf 73 75 0 1; mkOrf 70 71 1 1] /\
+  spec_orfs (70, 75) false (convert_cds_features [r] N 0 [g]) = true /\
+  spec_orfs (70, 75) false [mkOrf 73 100 0 1; mkOrf 1 71 1 1] = false.
+Proof.
+  cbv zeta. split; [left; eexists; split; [reflexivity|cbn; lia]|].
+  split.
+  { split; [discriminate|]. split; [repeat (apply Forall_cons; [cbn; lia|]); apply Forall_nil|reflexivity]. }
+  split; [reflexivity|]. split.
+  { intros ((p & Hp & HpN) & _). cbn in Hp. destruct Hp as [<-|[<-|[]]]; cbn in HpN; discriminate. }
+  repeat split.
+Qed.
+
+(* regression witness of the repaired finding area_assert_cross_origin (F34b): a sub-region covering the whole ring
+   at an offset, [40,100)+[0,40) on a ring of 100 (start == end).  Before the repair Area.crosses_origin() was
+   False for it and build_area_rows stopped with AssertionError (the model returned Err E_Assert); now it is one
+   area 40..140 in the origin-crossing region and two linked halves 40..100 / 0..40 in the whole-record region.
+   The same for a protocluster over the whole ring: core [50,60) before the origin, and a core that is itself the
+   whole ring (core_start == core_end: drawn 40..140, was 40..40) *)
+Example C19_whole_ring_witness_repaired :
+  let ring := [mkPart 40 100 1; mkPart 0 40 1] in
+  let s := mkFeat 1 K_Sub ring None false 1 in
+  let p1 := mkFeat 2 K_Proto ring (Some [mkPart 50 60 1]) false 5 in
+  let p2 := mkFeat 3 K_Proto ring (Some ring) false 6 in
+  wf_region 100 ring /\ feat_ok_core 100 true ring s /\ feat_ok_core 100 true ring p1 /\ feat_ok_core 100 true ring p2 /\
+  build_area_rows ring 100 true [s] [] [] = Ok [mkArea K_Sub 40 140 40 140 0 0 1 1] /\
+  build_area_rows [mkPart 0 100 1] 100 true [s] [] []
+  = Ok [mkArea K_Sub 40 100 40 100 0 1 1 1; mkArea K_Sub 0 40 0 40 0 1 1 1] /\
+  build_area_rows ring 100 true [] [] [p1; p2]
+  = Ok [mkArea K_Proto 50 60 40 140 1 0 5 2; mkArea K_Proto 40 140 40 140 3 0 6 3].
+Proof.
+  cbv zeta.
+  assert (Hr : wf_feat_ring 100 (mkFeat 1 K_Sub [mkPart 40 100 1; mkPart 0 40 1] None false 1) /\
+               forall f, floc f = [mkPart 40 100 1; mkPart 0 40 1] -> wf_feat_ring 100 f).
+  { split; [|intros f E]; right; exists (mkPart 40 100 1), (mkPart 0 40 1); cbn; repeat split; try reflexivity; try lia; exact E. }
+  destruct Hr as (_ & Hr).
+  split; [right; exists (mkPart 40 100 1), (mkPart 0 40 1); cbn; repeat split; try reflexivity; lia|].
+  split; [|split; [|split]].
+  - split; [split; [apply Hr; reflexivity|split; [vm_compute; reflexivity|auto]]|]. intros Hk. discriminate Hk.
+  - split; [split; [apply Hr; reflexivity|split; [vm_compute; reflexivity|auto]]|].
+    intros _. eexists. split; [reflexivity|]. split; [vm_compute; reflexivity|].
+    left. exists (mkPart 50 60 1). cbn. repeat split; lia.
+  - split; [split; [apply Hr; reflexivity|split; [vm_compute; reflexivity|auto]]|].
+    intros _. eexists. split; [reflexivity|]. split; [vm_compute; reflexivity|].
+    right. exists (mkPart 40 100 1), (mkPart 0 40 1). cbn. repeat split; try reflexivity; lia.
+  - repeat split; vm_compute; reflexivity.
 Qed.
 
 
